@@ -70,6 +70,7 @@ type State struct {
 	covers    map[string]bool
 	Output    []string
 	viol      []Violation
+	unwound   []Violation
 	notes     map[string]bool
 	fnCount   map[*ssa.Function]int64
 	sched     *scheduler
